@@ -114,14 +114,18 @@ PROPS["C03"] = dict(
 PROPS["C05"] = dict(
     modules=["Sth.Props.C01", "Sth.Props.C08"],
     theorems=list(CORE_RL),
-    runs=[dict(engine="sched", quick=150, thorough=20000, extra=["-profile", "c05"], nontrivial=["overlapping-calls"])],
+    runs=[dict(engine="sched", quick=150, thorough=20000, extra=["-profile", "c05"], nontrivial=["overlapping-calls", "conc-model-agrees"])],
     shrink_budget=0,
     rule="2-3 threads of 1-3 Put/Get/Has/GetSize/Remove calls on 2-4 keys clustered in one or two buckets with shared prefixes, plus a "
          "Flush thread, run on the real store under a cooperative scheduler that parks every thread at named points between the lock "
          "sections of Put/Remove/Get/Index.Get/Flush and releases one at a time following a seeded schedule with runs of 1-6 steps; the "
          "history (invocation/response event indexes and results) is checked: no call returns an error, the history is linearizable "
-         "with respect to the map (exhaustive search), and the contents after quiescence equal the final state of some linearization. "
-         "Non-trivial = distinct schedule in which calls of different threads overlap.",
+         "with respect to the map (exhaustive search), and the contents after quiescence equal the final state of some linearization. In 60% of the schedules every lock acquisition "
+         "of the index, primary, freelist and store is a scheduling point too (verifhook.Mutex/RWMutex), so that a critical section split "
+         "in two is interleaved; half of the programs give every key one writer (no overlap of mutators of one key: known finding D17 "
+         "cannot mask interference between keys). Schedules over named points only are replayed on the section-level model "
+         "Sth/Model/Conc.lean: every return value (Update errors and lost Puts of D17 included) and the final contents must agree. "
+         "Non-trivial = distinct schedule in which calls of different threads overlap / the section model agreed.",
     assumptions=["interleavings at the granularity of the named points (lock-section boundaries); atomicity of the sections themselves is C16",
                  "blocking is detected with a 30 ms grace period; a thread that arrives later is observed asynchronously"],
 )
